@@ -403,6 +403,20 @@ func TestC17_Fixed(t *testing.T) {
 		{Pattern: "b*", Subject: "abbcb", Op: "apply"},
 		{Pattern: `\/`, Subject: "a/b/c", Op: "split"},
 		{Pattern: "(a)(b)(c)(a)(b)(c)(a)(b)(c)(a)(b)(c)", Subject: "abcabcabcabc", Op: "replace", Templ: "$12$11$10$1$13$120"},
+		// two-digit group numbers whose group exists but is empty or did not take part
+		{Pattern: "(a)(b)(c)(d)(e)(f)(g)(h)(i)(j)(k)?", Subject: "abcdefghij", Op: "replace", Templ: "[$11][$10][$1][$110]"},
+		{Pattern: "(a)(b)(c)(d)(e)(f)(g)(h)(i)(j*)", Subject: "abcdefghi", Op: "replace", Templ: "<$10><$100>"},
+		{Pattern: "(a)(b)(c)(d)(e)(f)(g)(h)(i)(j)?(k)?(l)?", Subject: "abcdefghikxabcdefghijl", Op: "replace", Templ: "$12-$11-$10-$9"},
+		{Pattern: "(a)(b)(c)(d)(e)(f)(g)(h)(i)(j)(k)?", Subject: "abcdefghij", Op: "match"},
+		{Pattern: "(x)?(y)?(z)?a", Subject: "ya", Op: "replace", Templ: "$1|$2|$3|$4|$10|$20|$30"},
+		// left context of the second and later matches
+		{Pattern: "^a", Subject: "aaab", Op: "replace", Templ: "X"},
+		{Pattern: "^a", Subject: "aaab", Op: "match"},
+		{Pattern: "^a", Subject: "aaab", Op: "apply"},
+		{Pattern: `\bb`, Subject: "bb ab b", Op: "replace", Templ: "X"},
+		{Pattern: `\Bb`, Subject: "bb ab b", Op: "split"},
+		{Pattern: "^", Subject: "ab", Op: "match"},
+		{Pattern: "^a", Flags: "m", Subject: "aa\naa", Op: "match"},
 		{Pattern: "b", Subject: "abbb", Op: "replace", Templ: "x", Limit: lim(2)},
 		{Pattern: "b", Subject: "abbb", Op: "match", Limit: lim(0)},
 		{Pattern: "b", Subject: "abbb", Op: "split", Limit: lim(-1)},
